@@ -27,6 +27,9 @@ use rs_matter::transport::network::btp::verif_btp::Session;
 use rs_matter::transport::network::btp::Btp;
 use rs_matter::transport::network::BtAddr;
 
+#[path = "c18_ring.rs"]
+mod ring;
+
 const PEER: BtAddr = BtAddr([1, 2, 3, 4, 5, 6]);
 const MAX_TX: usize = 1232;
 
@@ -60,6 +63,8 @@ struct World {
     b: End,
     q_ab: VecDeque<Vec<u8>>,
     q_ba: VecDeque<Vec<u8>>,
+    /// kind `r`: the real ring buffer under test
+    ring: Option<Box<dyn ring::RingDyn>>,
 }
 
 fn errname(e: &rs_matter::error::Error) -> String {
@@ -71,11 +76,13 @@ impl World {
         let f: Vec<u16> = kind.split_whitespace().skip(1).map(|x| x.parse().unwrap_or(0)).collect();
         let g = |i: usize| f.get(i).copied().unwrap_or(0);
         MockDriver::get().reset();
+        let ring = if kind.starts_with('r') { ring::new_ring(g(0) as usize) } else { None };
         World {
             a: End::new(g(0) == 1, g(2), g(4) == 1),
             b: End::new(g(1) == 1, g(3), g(5) == 1),
             q_ab: VecDeque::new(),
             q_ba: VecDeque::new(),
+            ring,
         }
     }
 
@@ -92,6 +99,15 @@ impl World {
         let w: Vec<&str> = op.split_whitespace().collect();
         if w.is_empty() {
             return "bad".into();
+        }
+        if w[0].starts_with('r') {
+            return match self.ring.as_mut() {
+                Some(r) => {
+                    let r: &mut dyn ring::RingDyn = r.as_mut();
+                    catch_unwind(AssertUnwindSafe(|| ring::exec(r, &w))).unwrap_or_else(|_| "panic".into())
+                }
+                None => "bad".into(),
+            };
         }
         if w[0] == "tick" {
             let n: u64 = w.get(1).and_then(|x| x.parse().ok()).unwrap_or(0);
@@ -648,11 +664,35 @@ pub fn gen(a: &Args) -> String {
     }
     let mut r = Rng::new(a.seed);
     let mut out = Out::default();
-    out.buf.push_str("#rule kind h: one real Btp end (responder or initiator, strict/relaxed MTU, various GATT MTUs) fed by a generated hostile peer: noise before the handshake, handshake requests/responses with boundary mtu/window values and mutations, then nearly valid data/ack segments built from the end's real state (right/wrong sequence number, valid/stale/bogus acknowledgement, single- and multi-segment SDUs with right/wrong lengths and flags, window overrun, repeated handshakes), interleaved with send/poll/fetch/tick; kind l: two real Btp ends joined by FIFO queues under a random schedule of send/poll/deliver/fetch/tick with message lengths 0..1233 around the segment size, six scheduler profiles incl. long runs (sequence wrap) and slow applications (withheld acks, ack timers); non-trivial = (h) at least one segment accepted and one refused, (l) at least one message fetched and four segments sent; distinct = by operation list\n");
+    out.buf.push_str("#rule kind h: one real Btp end (responder or initiator, strict/relaxed MTU, various GATT MTUs) fed by a generated hostile peer: noise before the handshake, handshake requests/responses with boundary mtu/window values and mutations, then nearly valid data/ack segments built from the end's real state (right/wrong sequence number, valid/stale/bogus acknowledgement, single- and multi-segment SDUs with right/wrong lengths and flags, window overrun, repeated handshakes), interleaved with send/poll/fetch/tick; kind r: the real RingBuf<N> (N in 1..3166) driven directly with pushes (0..2N+3 bytes, overflow), pops, push_byte/pop_byte/clear in four fill profiles; kind l: two real Btp ends joined by FIFO queues under a random schedule of send/poll/deliver/fetch/tick with message lengths 0..1233 around the segment size, six scheduler profiles incl. long runs (sequence wrap) and slow applications (withheld acks, ack timers); non-trivial = (h) at least one segment accepted and one refused, (l) at least one message fetched and four segments sent, (r) at least one pop handed out bytes; distinct = by operation list\n");
     let n_cases = if a.thorough { 9000 } else { 3000 };
     for id in 0..n_cases {
         let mut cr = r.fork();
-        let (kind, ops, nt) = if cr.chance(1, 2) {
+        let (kind, ops, nt) = if id % 10 == 9 {
+            // ring stream: the real RingBuf<N> driven directly
+            out.stat("kind_r", 1);
+            let (kind, opl) = ring::gen_ops(&mut cr, a.thorough);
+            let mut w = World::new(&kind);
+            let mut ops = Vec::new();
+            let mut popped = 0usize;
+            let mut pushed = 0usize;
+            for op in opl {
+                let o = w.exec(&op);
+                if op.starts_with("rpush ") {
+                    pushed += (op.len() - 6) / 2;
+                }
+                if op.starts_with("rpop") && !o.starts_with('-') {
+                    popped += 1;
+                }
+                ops.push((op, o));
+            }
+            let cap: usize = kind[2..].parse().unwrap_or(1);
+            if pushed > cap {
+                out.stat("ring_cases_wrapped", 1);
+            }
+            out.stat(&format!("ring_n_{}", cap), 1);
+            (kind, ops, popped >= 1)
+        } else if cr.chance(1, 2) {
             out.stat("kind_h", 1);
             gen_hostile(&mut cr, &mut out, id, a.thorough)
         } else {
